@@ -700,6 +700,84 @@ class Tap:
         return False
 
 
+
+# ---------------------------------------------------------------------------------------------
+# set-up edits (not under test): documents with several separate adjacent BlockComment tokens, made through the
+# public editing API; the attribution histories then run on them
+def path_of(doc, obj):
+    for p, m in doc.nodes():
+        if m is obj:
+            return p
+    return None
+
+
+def edited_builder(kind):
+    def build(doc, rng):
+        """performs the set-up edits on doc, returns the attribution history (JSON ops) to run afterwards"""
+        models = _imp()[2]
+        same = rng.random() < 0.5
+        texts = ['first note', 'first note' if same else 'second note', 'third']
+        allm = [m for _p, m in doc.targets()[2]]
+
+        def com(k, indent):
+            return models.BlockComment.from_value(texts[k], indent=indent)
+
+        if kind in ('meta_append', 'postings_front', 'both'):
+            txs = [m for m in allm if hasattr(m, 'raw_meta_with_comments') and hasattr(m, 'raw_postings_with_comments')]
+            if not txs:
+                return None
+            tx = rng.choice(txs)
+            if kind in ('meta_append', 'both'):
+                tx.raw_meta_with_comments.append(com(0, '    '))
+                tx.raw_meta_with_comments.append(com(1, '    '))
+            if kind in ('postings_front', 'both'):
+                tx.raw_postings_with_comments.insert(0, com(1, '    '))
+                tx.raw_postings_with_comments.insert(0, com(0, '    '))
+            p = path_of(doc, tx)
+            pm, pp = p + '.raw_meta_with_comments', p + '.raw_postings_with_comments'
+            a, b = (pm, pp) if kind != 'postings_front' else (pp, pm)
+            ops = []
+            for _ in range(2):
+                ops += [['unclaim_inter', a, None], ['claim_inter', b, None], ['unclaim_inter', b, None],
+                        ['claim_inter', a, None]]
+            sub = [q for q, m in doc.targets()[0] if q.startswith(p + '.')]
+            for q in sub[:3]:
+                ops += [['unclaim_inter', a, None], ['claim_leading', q, True], ['claim_trailing', q, True],
+                        ['claim_inter', b, None], ['unclaim_leading', q, None], ['unclaim_trailing', q, None],
+                        ['claim_inter', a, None]]
+            return ops + [['auto2', p, None], ['auto2', 'F', None]]
+        if kind == 'directive_meta':
+            ds = [m for m in allm if hasattr(m, 'raw_meta_with_comments') and not hasattr(m, 'raw_postings_with_comments')
+                  and has_surrounding(m) and not type(m).__name__ in ('Posting',)]
+            if not ds:
+                return None
+            dm = rng.choice(ds)
+            dm.raw_meta_with_comments.append(com(0, '    '))
+            dm.raw_meta_with_comments.append(com(1, '    '))
+            p = path_of(doc, dm)
+            pm = p + '.raw_meta_with_comments'
+            return [['unclaim_inter', pm, None], ['claim_inter', pm, None], ['unclaim_inter', pm, None],
+                    ['claim_trailing', p, True], ['claim_inter', pm, None], ['unclaim_trailing', p, None],
+                    ['claim_inter', pm, None], ['auto2', 'F', None]]
+        if kind == 'file_ends':
+            w = doc.file.raw_directives_with_comments
+            w.insert(0, com(0, ''))
+            w.insert(0, com(1, ''))
+            w.append(com(1, ''))
+            w.append(com(2, ''))
+            pf = 'F.raw_directives_with_comments'
+            ops = [['unclaim_inter', pf, None], ['claim_inter', pf, None]]
+            sur = [q for q, m in doc.targets()[0] if q.count('.') == 1]
+            for q in (sur[:1] + sur[-1:]):
+                ops += [['unclaim_inter', pf, None], ['claim_leading', q, True], ['claim_trailing', q, True],
+                        ['claim_inter', pf, None], ['unclaim_leading', q, None], ['unclaim_trailing', q, None],
+                        ['claim_inter', pf, None]]
+            return ops + [['auto2', 'F', None]]
+        return None
+    build.kind = kind
+    return build
+
+
 # ---------------------------------------------------------------------------------------------
 # API calls (what a history is made of); every call is JSON so that a witness replays
 def gen_ops(rng, doc: Doc, n_ops: int):
@@ -1148,10 +1226,30 @@ def run_document(ctx, prop: str, lines, crlf, final_nl, ops_seed, n_ops, witness
                 idx = [x for x, _ in blocks].index(a)
                 plans.append((False, [['claim_leading', pb, False], ['unclaim_leading', pb, None],
                                       ['assign', px, {'src': idx}], ['auto', 'F', None], ['auto2', 'F', None]]))
+    # attribution histories on documents first edited through the public API (set-up, not under test)
+    for kind in ('meta_append', 'postings_front', 'both', 'directive_meta', 'file_ends'):
+        if rng.random() < (0.6 if n_com or kind != 'file_ends' else 0.3):
+            plans.append((rng.random() < 0.7, edited_builder(kind)))
     for flag, plan in plans:
         doc = Doc(text, flag)
+        edited = callable(plan)
+        plan_kind = None
+        if edited:
+            try:
+                built = plan(doc, rng)
+                get_parser().parse(print_text(doc.file), _imp()[2].File)     # still an accepted document
+            except Exception:
+                ctx.count('setup_edit_refused_or_unparsable')
+                continue
+            if not built:
+                continue
+            ctx.dist('edited_setup=' + plan.kind)
+            plan_kind, plan = plan.kind, built
+            for t_ in doc.file.token_store:
+                doc.tid(t_)
         full0 = doc.full()
-        vis0, strict0, base_text = visible(doc), visible_strict(doc), text
+        table_init = doc.table0()
+        vis0, strict0, base_text = visible(doc), visible_strict(doc), print_text(doc.file)
         ops = plan if plan is not None else gen_ops(rng, doc, n_ops)
         prims = []
         unmodelled = False
@@ -1165,7 +1263,7 @@ def run_document(ctx, prop: str, lines, crlf, final_nl, ops_seed, n_ops, witness
             ctx.dist('op=' + op[0])
             if exc:
                 ctx.dist('raised=' + exc)
-            w = {'flag': flag, 'ops': ops[:k + 1]}
+            w = {'flag': flag, 'ops': ops[:k + 1], 'edited_setup': plan_kind}
             # primitives must chain: nothing else touches the store between them
             chain = before
             for rec in doc.log:
@@ -1221,6 +1319,9 @@ def run_document(ctx, prop: str, lines, crlf, final_nl, ops_seed, n_ops, witness
                         {'flag': flag, 'ops': ops})
         if unmodelled:
             ctx.count('histories_with_unmodelled_edit')
+        elif edited:
+            cases.append((coq_case(full0, table_init, [prims], patched),
+                          dict(wit, flag=flag, edited_setup=plan_kind, histories=[ops]), 1))
         else:
             hists[flag].append(prims)
             metas[flag].append(ops)
